@@ -1,6 +1,7 @@
 package c17
 
 import (
+	"crypto/sha256"
 	"fmt"
 	"reflect"
 	"runtime"
@@ -13,6 +14,7 @@ import (
 	"github.com/btcsuite/btcd/chaincfg/chainhash"
 	"github.com/polynetwork/poly/common"
 	"github.com/polynetwork/poly/native"
+	scom "github.com/polynetwork/poly/native/service/cross_chain_manager/common"
 	nm "github.com/polynetwork/poly/native/service/governance/node_manager"
 	scm "github.com/polynetwork/poly/native/service/governance/side_chain_manager"
 	hsbsc "github.com/polynetwork/poly/native/service/header_sync/bsc"
@@ -52,30 +54,52 @@ var accessors = []interface{}{
 	hscosmos.GetEpochSwitchInfo, hsokex.GetEpochSwitchInfo,
 	hsont.GetCrossChainMsg, hsont.GetHeaderByHeight, hsont.GetHeaderByHash, hsont.GetKeyHeights,
 	hszil.IsHeaderExist, hszil.GetTxHeaderByHash, hszil.GetCurrentTxHeader, hszil.GetCurrentTxHeaderHeight, hszil.GetDsHeaderByHash,
+	scom.CheckDoneTx,
 	hszill.IsHeaderExist, hszill.GetTxHeaderByHash, hszill.GetCurrentTxHeader, hszill.GetCurrentTxHeaderHeight, hszill.GetDsHeaderByHash,
 }
 
 var svcType = reflect.TypeOf((*native.NativeService)(nil))
 
-// two distinct values for every supported parameter type
-func valuesFor(t reflect.Type, variant int) (reflect.Value, bool) {
+// values: a base value (index 0) and variants that differ from it, for every supported parameter
+// type. Byte strings include the shapes a careless key derivation confuses: the hash of a long
+// value, its truncation to 32 / 20 bytes, a trailing zero byte.
+func valuesFor(t reflect.Type) ([]reflect.Value, bool) {
+	long := []byte("0123456789abcdefghijklmnopqrstuvwxyzABCD") // 40 bytes
+	h := sha256.Sum256(long)
+	var out []reflect.Value
 	switch {
 	case t.Kind() == reflect.Uint64:
-		return reflect.ValueOf([]uint64{2, 3, 0x0102030405060708}[variant]).Convert(t), true
+		for _, v := range []uint64{2, 3, 0x0102030405060708, 2 << 32} {
+			out = append(out, reflect.ValueOf(v).Convert(t))
+		}
 	case t.Kind() == reflect.Uint32:
-		return reflect.ValueOf([]uint32{7, 9, 0x01020304}[variant]).Convert(t), true
+		for _, v := range []uint32{7, 9, 0x01020304, 7 << 16} {
+			out = append(out, reflect.ValueOf(v).Convert(t))
+		}
 	case t.Kind() == reflect.String:
-		return reflect.ValueOf([]string{"02aa11", "03bb22", "02aa1100"}[variant]).Convert(t), true
+		for _, v := range []string{"02aa11", "03bb22", "02aa1100"} {
+			out = append(out, reflect.ValueOf(v).Convert(t))
+		}
 	case t == reflect.TypeOf([]byte(nil)):
-		return reflect.ValueOf([][]byte{{0xa1, 0xa2, 0xa3}, {0xb1, 0xb2, 0xb3}, {0xa1, 0xa2, 0xa3, 0}}[variant]), true
+		for _, v := range [][]byte{long, []byte("another value of the same length, 40 b.."), append(append([]byte{}, long...), 0), h[:], long[:32], long[:20], {0xa1, 0xa2, 0xa3}} {
+			out = append(out, reflect.ValueOf(v))
+		}
 	case t == reflect.TypeOf(common.Uint256{}):
-		return reflect.ValueOf([]common.Uint256{{1}, {2}, {1, 0, 0, 1}}[variant]), true
+		for _, v := range []common.Uint256{{1}, {2}, {1, 0, 0, 1}} {
+			out = append(out, reflect.ValueOf(v))
+		}
 	case t == reflect.TypeOf(common.Address{}):
-		return reflect.ValueOf([]common.Address{{1}, {2}, {1, 0, 0, 1}}[variant]), true
+		for _, v := range []common.Address{{1}, {2}, {1, 0, 0, 1}} {
+			out = append(out, reflect.ValueOf(v))
+		}
 	case t == reflect.TypeOf(chainhash.Hash{}):
-		return reflect.ValueOf([]chainhash.Hash{{1}, {2}, {1, 0, 0, 1}}[variant]), true
+		for _, v := range []chainhash.Hash{{1}, {2}, {1, 0, 0, 1}} {
+			out = append(out, reflect.ValueOf(v))
+		}
+	default:
+		return nil, false
 	}
-	return reflect.Value{}, false
+	return out, true
 }
 
 // accessorPart: for every accessor and every parameter position, two calls that differ only in
@@ -108,12 +132,12 @@ func accessorPart(r *kit.Run) {
 		base := []reflect.Value{reflect.ValueOf(svc)}
 		ok := true
 		for i := 1; i < ft.NumIn(); i++ {
-			v, sup := valuesFor(ft.In(i), 0)
+			vs, sup := valuesFor(ft.In(i))
 			if !sup {
 				ok = false
 				break
 			}
-			base = append(base, v)
+			base = append(base, vs[0])
 		}
 		if !ok {
 			r.Count("accessors_skipped_unsupported_parameter_type", 1)
@@ -130,9 +154,10 @@ func accessorPart(r *kit.Run) {
 			continue
 		}
 		for i := 1; i < ft.NumIn(); i++ {
-			for variant := 1; variant <= 2; variant++ {
+			vs, _ := valuesFor(ft.In(i))
+			for variant := 1; variant < len(vs); variant++ {
 				args := append([]reflect.Value{}, base...)
-				args[i], _ = valuesFor(ft.In(i), variant)
+				args[i] = vs[variant]
 				ki, pi := call(fn, args)
 				r.Eval(1)
 				r.Distinct("accessor", name, i, variant)
